@@ -48,6 +48,10 @@ class CellSession:
 
     def mk(self, f):
         k = f["kind"]
+        if k == "scalar" and f.get("std"):
+            # the standard-width aliases of data_types.rst: uint8_t ... rand_int64_t
+            t = getattr(vsc, "%s%sint%d_t" % ("rand_" if f.get("rand") else "", "" if f["signed"] else "u", f["w"]))
+            return t(i=f.get("init", 0))
         if k == "scalar":
             t = {(True, True): vsc.rand_int_t, (True, False): vsc.rand_bit_t, (False, True): vsc.int_t,
                  (False, False): vsc.bit_t}[(bool(f.get("rand")), f["signed"])]
